@@ -467,6 +467,9 @@ func runInventoryCmd(args []string) {
 						}
 						add(&panicSites, "index", x)
 					case *ast.SliceExpr:
+						if x.Low == nil && x.High == nil && x.Max == nil {
+							return true // s[:] cannot be out of range
+						}
 						add(&panicSites, "slice", x)
 					case *ast.BinaryExpr:
 						if x.Op == token.QUO || x.Op == token.REM {
